@@ -28,6 +28,35 @@ def _dump(n):
     return ast.dump(n, annotate_fields=True, include_attributes=False)
 
 
+class _Unobservable(ast.NodeTransformer):
+    """drop statements without an effect the property can observe (logging calls, `pass`, bare string literals) and blank the
+    message text of `raise X("...")` (the property compares the kind of error, not its wording)"""
+
+    def visit_Expr(self, n):
+        v = n.value
+        if isinstance(v, ast.Constant):
+            return None
+        if isinstance(v, ast.Call) and isinstance(v.func, ast.Attribute) and isinstance(v.func.value, ast.Name) \
+                and v.func.value.id in ("logger", "_log", "log", "logging") and v.func.attr in ("debug", "info", "warning", "error", "exception", "critical", "log"):
+            return None
+        return self.generic_visit(n)
+
+    def visit_Pass(self, n):
+        return None
+
+    def visit_Raise(self, n):
+        if isinstance(n.exc, ast.Call):
+            n.exc.args = [ast.Constant("<message>") if isinstance(a, (ast.Constant, ast.JoinedStr)) else a for a in n.exc.args]
+        return n
+
+    def generic_visit(self, node):
+        node = super().generic_visit(node)
+        for f in ("body", "orelse", "finalbody"):
+            if isinstance(getattr(node, f, None), list) and f == "body" and not node.body and not isinstance(node, ast.Module):
+                node.body = [ast.Pass()]
+        return node
+
+
 def _alpha(fn):
     """canonical names for the local variables of a function (in order of first binding), so that renaming a local in one
     of two sibling bodies is not reported as a difference"""
@@ -64,17 +93,20 @@ def transfer_relational(world):
     out = []
     emi, _, evo = world.repo.find_function("robotools.evotools.worklist.EvoWorklist.transfer")
     fmi, _, flu = world.repo.find_function("robotools.fluenttools.worklist.FluentWorklist.transfer")
-    evo, flu = _alpha(_strip(evo)), _alpha(_strip(flu))
+    evo, flu = _alpha(_Unobservable().visit(_strip(evo))), _alpha(_Unobservable().visit(_strip(flu)))
     out.append(("C16/transfer/same-signature", _dump(evo.args) == _dump(flu.args), "parameter lists differ"))
-    be, bf = list(evo.body), list(flu.body)
+    be, bf = _align([s for s in evo.body if not isinstance(s, ast.Pass)], [s for s in flu.body if not isinstance(s, ast.Pass)])
     i = j = 0
     k = 0
     while i < len(be) or j < len(bf):
         k += 1
-        if i >= len(be) or j >= len(bf):
-            out.append((f"C16/transfer/stmt[{k}]", False, f"one body has extra statements (evo line {be[i].lineno if i < len(be) else '-'}, fluent line {bf[j].lineno if j < len(bf) else '-'})"))
-            break
         a, b = be[i], bf[j]
+        if a is None or b is None:
+            x = a if a is not None else b
+            out.append((f"C16/transfer/stmt[{k}]", False, f"statement only in {'EvoWorklist' if b is None else 'FluentWorklist'}.transfer (line {x.lineno}): {ast.unparse(x)[:160]!r}"))
+            i += 1
+            j += 1
+            continue
         if _dump(a) == _dump(b):
             out.append((f"C16/transfer/stmt[{k}]", True, ""))
             i += 1
@@ -104,6 +136,24 @@ def transfer_relational(world):
     ne, nf = emi.imports.get("np"), fmi.imports.get("np")
     out.append(("C16/transfer/import[np]", ne == nf == ("module", "numpy"), f"{ne} vs {nf}"))
     return out
+
+
+def _align(xs, ys):
+    """pad the two statement lists with None so that equal statements face each other (a one-sided insertion is then one
+    difference, not a cascade)"""
+    import difflib
+
+    dx, dy = [_dump(x) for x in xs], [_dump(y) for y in ys]
+    ax, ay = [], []
+    for tag, i1, i2, j1, j2 in difflib.SequenceMatcher(a=dx, b=dy, autojunk=False).get_opcodes():
+        if tag == "equal":
+            ax += xs[i1:i2]
+            ay += ys[j1:j2]
+            continue
+        n = max(i2 - i1, j2 - j1)
+        ax += xs[i1:i2] + [None] * (n - (i2 - i1))
+        ay += ys[j1:j2] + [None] * (n - (j2 - j1))
+    return ax, ay
 
 
 def _negates(c1, c2):
